@@ -284,6 +284,24 @@ def run(res: Results, idx: Index, tier: str) -> None:
     run_pattern_shape_checks(res, idx)
     run_mixed_dtype_operands(res, idx, plugins)
     run_promotion_overrides(res, idx)
+    _rule_i(res, idx, tier)
+
+
+def _rule_i(res: Results, idx: Index, tier: str) -> None:
+    """Two @onnx_function call sites may share one function body only when the dedup key separates everything the
+    body's values depend on (C07 R-C07a: input signature, every static argument's content, callee identity).  A key
+    that merges two different static arguments bakes the first value into both call sites: the model computes another
+    function.  The same instances are decided here."""
+    if getattr(res, "_nested_xref", False):
+        return
+    res.rule("R-C01i", "function bodies are shared only between call sites the dedup key proves equal (C07 R-C07a)", floor=8)
+    from . import c07
+    sub = Results("C07", tier)
+    setattr(sub, "_nested_xref", True)
+    c07.run(sub, idx, tier)
+    for inst in sub.instances:
+        if inst.rule == "R-C07a":
+            res.add("R-C01i", inst.status, inst.site, f"R-C07a::{inst.key}", f"[C07 R-C07a] {inst.detail}", inst.func)
 
 
 def _rule_b(res: Results, idx: Index, cg) -> None:
